@@ -13,6 +13,7 @@ LEVEL = dict(
                 "every graph (collisions between old and new numbers in the bookmark table, generations, dangling references).",
     trusted_base=["rustc MIR and callee resolution"],
 )
+LEVEL["rule_text"] += '; the page list of the ordering pass is never turned into a set of ids (a page listed twice stays listed twice)'
 
 
 def run(ctx, dangling_clause=True):
@@ -86,6 +87,14 @@ def run(ctx, dangling_clause=True):
     oks = bool(kc) and (len(tr0) < 2 or all(not b.can_reach(k.bb, tr0[0].bb) for k in kc))
     ctx.ob(R, "keys-snapshot-after-page-pass", oks, "the sorted key snapshot is taken after the page-ordering pass", b.where(kc[0].ln if kc else None),
            what="renumber_objects_with takes the snapshot of object keys before the page-ordering pass has run: that pass changes keys, so the numbering pass works from stale ones and leaves objects under their old numbers")
+    # the page-ordering pass pairs the page list in document order with the same list in id order: position by position, so both
+    # are lists of the same length.  A set of the ids (or a dedup) drops a page that the tree lists twice, the pairing shifts and
+    # two pages end up under one number
+    sets = [(x, c) for x in F.with_closures(b) for c in x.calls
+            if re.search(r"(BTreeSet|HashSet|IndexSet)<(\(i32, )?\(u32, u16\)\)?>", c.full or "") or re.search(r"::dedup(_by|_by_key)?$", c.fn or "")]
+    ctx.ob(R, "page-list-keeps-duplicates", not sets, "the page list is never turned into a set of ids", b.where(sets[0][1].ln if sets else None),
+           what="renumber_objects_with puts the page ids into a set (%s): a page the tree lists twice is dropped from one side of the old/new pairing, "
+                "so the renaming is no longer one-to-one (a later page is overwritten)" % ((sets[0][1].fn or sets[0][1].name).rsplit("::", 2)[-2:] if sets else ""))
     # traversal after each move, with the same map
     tr = lib.local_calls(F, b, "Document::traverse_objects")
     ctx.floor(R, "traverse_objects calls", len(tr), 2)
